@@ -177,7 +177,11 @@ def rule_machine_exact(ctx: Ctx, rule: str = "machine-form-exact") -> None:
         n = 0
         from .rules_exc import with_new_helpers
 
-        for node in (x for root in with_new_helpers(prog, fi) for x in ast.walk(root)):
+        roots = with_new_helpers(prog, fi)
+        in_message = {id(x) for root in roots for r in ast.walk(root) if isinstance(r, ast.Raise) for x in ast.walk(r)}
+        for node in (x for root in roots for x in ast.walk(root)):
+            if id(node) in in_message:
+                continue  # the text of an error message is not a number that is written or read
             if isinstance(node, ast.Call):
                 t = norm(node.func)
                 n += 1
@@ -313,7 +317,13 @@ def rule_file_tags(ctx: Ctx, rule: str = "file-tags") -> None:
             ctx.ok(rule, r.key, construct + " (%s / %s)" % (wr, rd))
         else:
             ctx.violation(rule, r.key, construct, "written with %s, read with %s" % (wr, rd), where=r.where)
-    wk = {k for b, k, v in _subscript_store_keys(w.node)}
+    from .rules_exc import written_entries
+
+    try:
+        wk = {k for it in written_entries(prog) for k in it}
+    except AnalysisError:
+        wk = set()
+    wk = wk or {k for b, k, v in _subscript_store_keys(w.node)}
     from .rules_exc import reader_key_discipline
 
     try:
